@@ -240,12 +240,18 @@ def endIdx (f : Func) (bn : String) : Nat :=
 
 def justFuel (f : Func) : Nat := (allNames f).length + 2
 
+/-- the callee of a call is never replaced -/
+def calleeSame : Instr → Instr → Bool
+  | .fcall _ _ c _, .fcall _ _ c' _ => c = c'
+  | .pcall c _, .pcall c' _ => c = c'
+  | _, _ => true
+
 /-- instruction `i` at point `u` of `f` may become `i'` -/
 def instrOk (f : Func) (T : DomTab) (u : Pos) (i i' : Instr) : Bool :=
   i = i' ||
   (let σ := (allOps i).zip (allOps i')
    let g : Operand → Operand := fun o => (lookupOp σ o).getD o
-   i' = mapOps g i &&
+   i' = mapOps g i && calleeSame i i' &&
    i.uses.all (fun o => justB f T u (justFuel f) o (g o)) &&
    i.phiIns.all (fun p => justB f T (p.1, endIdx f p.1) (justFuel f) p.2 (g p.2)))
 
